@@ -18,6 +18,10 @@ pub enum Fault {
     Ipv6PayloadLenLie,
     AppendJunk,
     ZeroFill,
+    /// TCP flag byte set to an anomalous combination (SYN+FIN, SYN+RST, FIN+RST, none, all)
+    TcpFlagsSet,
+    /// IPv4 fragmentation bits: more-fragments flag or a non-zero fragment offset
+    FragmentBits,
 }
 
 impl Fault {
@@ -35,9 +39,11 @@ impl Fault {
             Fault::Ipv6PayloadLenLie => "byte_set_ipv6_payload_length",
             Fault::AppendJunk => "append_junk",
             Fault::ZeroFill => "zero_fill",
+            Fault::TcpFlagsSet => "byte_set_tcp_flags",
+            Fault::FragmentBits => "byte_set_fragment_bits",
         }
     }
-    pub const ALL: [Fault; 12] = [
+    pub const ALL: [Fault; 14] = [
         Fault::Truncate,
         Fault::BitFlip,
         Fault::IhlSet,
@@ -50,6 +56,8 @@ impl Fault {
         Fault::Ipv6PayloadLenLie,
         Fault::AppendJunk,
         Fault::ZeroFill,
+        Fault::TcpFlagsSet,
+        Fault::FragmentBits,
     ];
 }
 
@@ -179,6 +187,25 @@ pub fn apply(r: &mut Rng, f: Fault, frame: &mut Vec<u8>) -> bool {
         Fault::AppendJunk => {
             let n = r.urange(1, 64);
             frame.extend_from_slice(&r.bytes(n));
+            true
+        }
+        Fault::TcpFlagsSet => {
+            if frame.len() <= tcpo + 13 {
+                return false;
+            }
+            frame[tcpo + 13] = *r.pick(&[0x03u8, 0x06, 0x05, 0x00, 0xff, 0x08, 0x29, 0x07, 0x12 | 0x01]);
+            true
+        }
+        Fault::FragmentBits => {
+            if !v4 || frame.len() < ipo + 8 {
+                return false;
+            }
+            if r.chance(1, 2) {
+                frame[ipo + 6] |= 0x20; // more fragments
+            } else {
+                frame[ipo + 6] = (frame[ipo + 6] & 0xe0) | (r.below(32) as u8);
+                frame[ipo + 7] = r.u8() | 1;
+            }
             true
         }
         Fault::ZeroFill => {
